@@ -59,6 +59,9 @@ func main() {
 	if *root == "" {
 		*root, _ = os.Getwd()
 	}
+	if *prop == "all" {
+		os.Exit(runAll(*repo, *root, *tags))
+	}
 	def := properties[*prop]
 	if def == nil {
 		fmt.Fprintf(os.Stderr, "unknown property %q\n", *prop)
@@ -96,4 +99,41 @@ func runProperty(def *propertyDef, tier, repo, root, only, replay, tags string) 
 		}
 	}
 	return r.Finish(def.explain)
+}
+
+// runAll loads the tree once and runs every registered property's rules on it without writing
+// evidence (development aid and seeded-change matrix): one line per property.
+func runAll(repo, root, tags string) int {
+	abs, _ := filepath.Abs(repo)
+	prog, err := Load(abs, tags)
+	if err != nil {
+		fmt.Printf("LOAD cannot analyse %s: %v\n", repo, err)
+		return 1
+	}
+	var ids []string
+	for id := range properties {
+		ids = append(ids, id)
+	}
+	sort.Strings(ids)
+	rc := 0
+	for _, id := range ids {
+		func() {
+			r := &Run{Property: id, Tier: "quick", Root: root, Prog: prog, start: time.Now(), extra: map[string]interface{}{}, dry: true}
+			defer func() {
+				if p := recover(); p != nil {
+					fmt.Printf("%s.LOAD analyser panic: %v\n", id, p)
+					fmt.Printf("ALL %s VIOLATION\n", id)
+					rc = 1
+				}
+			}()
+			properties[id].run(r)
+			if r.Finish(properties[id].explain) != 0 {
+				fmt.Printf("ALL %s VIOLATION\n", id)
+				rc = 1
+			} else {
+				fmt.Printf("ALL %s ok\n", id)
+			}
+		}()
+	}
+	return rc
 }
